@@ -30,6 +30,44 @@ if MODULES not in sys.path:
 os.environ['PYTHONDONTWRITEBYTECODE'] = '1'
 
 
+class Hang(BaseException):
+    """raised inside the real code by the watchdog: the call did not return within its time limit"""
+
+
+class deadline:
+    """watchdog for in-process calls of the real code (main thread only): `with deadline(5): real_call()` raises Hang
+    after 5 s of wall-clock time, so that a non-terminating decode is reported instead of stalling the check"""
+
+    def __init__(self, seconds):
+        self.seconds = seconds
+
+    def _fire(self, signum, frame):
+        HANGS[0] += 1
+        raise Hang('no result after %.0f s' % self.seconds)
+
+    def __enter__(self):
+        import signal
+        self.old = signal.signal(signal.SIGALRM, self._fire)
+        signal.setitimer(signal.ITIMER_REAL, self.seconds)
+        return self
+
+    def __exit__(self, *a):
+        import signal
+        signal.setitimer(signal.ITIMER_REAL, 0)
+        signal.signal(signal.SIGALRM, self.old)
+        return False
+
+
+REAL_CALL_LIMIT = float(os.environ.get('VERIF_REAL_CALL_LIMIT', '10'))
+HANGS = [0]
+
+
+def call_limit():
+    """the first non-returning call gets the full limit; once one has been seen the limit drops to 1 s (real decodes
+    take milliseconds) so that a tree which hangs on many inputs is still reported in minutes"""
+    return REAL_CALL_LIMIT if HANGS[0] == 0 else 1.0
+
+
 def child_env(extra=None):
     env = dict(os.environ)
     env['PYTHONPATH'] = MODULES + (os.pathsep + extra if extra else '')
